@@ -103,6 +103,7 @@ def analyse_python(job):
     res["max_depth"] = max([v["depth"] for v in rec["frames"].values()] or [0])
     api_cache = {}
     try_sites = {(s_["file"], s_["line"]) for s_ in project["sites"] if s_.get("ctrl") in ("try", "finally", "after-try")}
+    bound_sites = {(s_["file"], s_["line"]) for s_ in project["sites"] if s_.get("kind") == "bound-method-value"}
     # ---- pass 1: every event gets a raw verdict ------------------------------------------------------------------
     judged = {}        # event key -> dict(kind, why, detail, ids, ...)
     for key in sorted(events, key=lambda q: (q[1][0], q[2], str(q[3]))):
@@ -126,10 +127,11 @@ def analyse_python(job):
         caller_cls = def_of[callerk]["cls"] if callerk[1] != "<module>" else None
         other_cycle = False
         for st_ in info["stacks"]:
-            fns = [fl[2] for fl in st_ if fl[2] != calleek]
+            fns = [fl[2] for fl in st_ if fl[2] not in (calleek, callerk)]
             if len(fns) != len(set(fns)):
                 other_cycle = True
-        kind = gen_calls.event_kind(project, site, d["qual"], sorted(info["recv"]), under_try, caller_cls, other_cycle)
+        under_bound = bool(info["stacks"]) and all(any((fl[0], fl[1]) in bound_sites for fl in st) for st in info["stacks"])
+        kind = gen_calls.event_kind(project, site, d["qual"], sorted(info["recv"]), under_try, caller_cls, other_cycle, under_bound)
         if lang != "python":
             kind = f"{lang}/{kind}"
         if job.get("enable_p2"):
